@@ -63,10 +63,10 @@ def run_m(text, timeout=600):
 def make_scratch():
     """ini files (their text comes from the model), a directory with three entries (a sub-directory, a file, a dangling symbolic link), a tiny shared library"""
     d = tempfile.mkdtemp(prefix="pvres-%d-" % os.getpid(), dir=pv.CACHE)
-    rc, lines, err = run_m("inifile 1\ninifile 2\n")
-    if rc != 0 or len(lines) != 2:
+    rc, lines, err = run_m("inifile 1\ninifile 2\ninifile 3\n")
+    if rc != 0 or len(lines) != 3:
         raise pv.BuildError("the model driver does not answer `inifile`: " + err[-400:])
-    for i, t in zip((1, 2), lines):
+    for i, t in zip((1, 2, 3), lines):
         with open(os.path.join(d, "ini%d.ini" % i), "w") as f:
             f.write(t.replace("|", "\n") + "\n")
     os.makedirs(os.path.join(d, "d", "sub"))
